@@ -601,6 +601,19 @@ class Workload:
             return
         if self.busy:
             return
+        # two live iterators on one reader object (small fetch batches): neither may lose rows to the other
+        try:
+            rd2 = self.SQ.SqliteReader(self.path, batch_size=2)
+            it1 = iter(rd2)
+            head = [r for _, r in zip(range(1), it1)]
+            full = sum(1 for _ in rd2)
+            rest = sum(1 for _ in it1)
+            rd2.con.close()
+            total = sum(len(v) for v in back.values())
+            if full != total or len(head) + rest != total:
+                self.add(_viol("C18.values", "two live iterators on one SqliteReader (batch_size=2): the inner pass yields %d and the outer %d of %d records" % (full, len(head) + rest, total)))
+        except Exception as e:  # noqa: BLE001
+            self.add(_viol("C18.values", "two live iterators on one SqliteReader raised %s: %s" % (type(e).__name__, short(str(e), 120))))
         per = collections.OrderedDict()
         for name, cells, _ in self.rows:
             per.setdefault(name, []).append(cells)
